@@ -52,7 +52,17 @@ D="$FAKEVCS_DIR"
 w="-"
 if [ -f "$D/probe_file" ] && grep -qF -- "$(cat "$D/probe_text")" "$(cat "$D/probe_file")" 2>/dev/null; then w="W"; fi
 printf '%s' "$w" >> "$D/wlog"
-[ -f "$D/$(basename "$0").fail" ] && exit 7
+if [ -f "$D/$(basename "$0").fail" ]; then
+  case "$(cat "$D/$(basename "$0").fail")" in
+    term) kill -TERM $$; sleep 5 ;;
+    kill) kill -KILL $$; sleep 5 ;;
+    segv) kill -SEGV $$; sleep 5 ;;
+    exit1) exit 1 ;;
+    exit255) exit 255 ;;
+    exit126) exit 126 ;;
+    *) exit 7 ;;
+  esac
+fi
 exit 0
 """
 
@@ -118,13 +128,14 @@ class Project:
         with open(os.path.join(self.fake, name), "w") as f:
             f.write(text)
 
-    def add_hook(self, name, fail=False):
+    def add_hook(self, name, fail=False, mode="exit7"):
+        """`mode`: how a failing hook ends — exit7/exit1/exit255/exit126, or killed by a signal (term/kill/segv: negative returncode)"""
         p = self.path(name)
         with open(p, "w") as f:
             f.write(HOOK_SH)
         os.chmod(p, 0o755)
         if fail:
-            self.fake_set(name + ".fail", "1")
+            self.fake_set(name + ".fail", mode)
         return name
 
     def fake_log(self):
